@@ -1,1 +1,291 @@
-"""Rules for C10 (see DESIGN.md section 5)."""
+"""C10 -- vector outputs (SVG, EPS, PDF, LaTeX)."""
+import ast
+import itertools
+import re
+
+from .. import ev, iso, nf, pat, src
+from ..core import rule, ob, explain, Ob
+from ..ev import PyRaise
+from ..interp import Interp, make_callable, FuncVal, callable_env
+from ..src import Unknown
+from .common import C, need, single
+
+explain('C10', '''Decided (structural): SVG (plain), EPS, PDF and LaTeX draw the runs of one extractor, matrix_to_lines, which
+is interpreted bounded-exhaustively on every 0/1 matrix up to 6 columns x 1 row and 4 x 2 (both directions of y) and yields
+exactly the maximal dark runs, each once, in row order; every writer that sizes its page as (size+2b)*scale and draws in
+module units emits its scale transform under a guard equal to scale != 1 (truth table over integral and fractional scales;
+siblings SVG/EPS/PDF); no floor/int/round is applied to a value derived from scale, width or height in the four writers; the
+PDF background rectangle (page units) precedes the transform, the SVG background is sized in module units from matrix size and
+border; EPS and PDF share the first baseline rows+border-1/2, LaTeX multiplies every coordinate by scale; the PDF output block
+is interpreted on a recording stream with the content stream as an opaque blob: /Length equals its length, every xref offset
+points at 'N 0 obj', startxref at 'xref', every object is closed by endobj, entry count and /Size are objects+1; page fields
+(width/height/viewBox, %%BoundingBox, /MediaBox) come from the validated size, stroke from dark, fill from light; integer
+colour components map linearly c/255 for all 256 values. NOT decided: the SVG relative-coordinate accumulation and the full
+document text for real symbols.''')
+
+VEC = ('write_svg', 'write_eps', 'write_pdf', 'write_tex')
+
+
+def _runs(matrix, x, y, incby):
+    out = []
+    yy = y
+    for r, row in enumerate(matrix):
+        yy = y + r * incby
+        c = 0
+        while c < len(row):
+            if row[c]:
+                s = c
+                while c < len(row) and row[c]:
+                    c += 1
+                out.append(((x + s, yy), (x + c, yy)))
+            else:
+                c += 1
+    return out
+
+
+@rule('C10', 'R1', 7, 'one run extractor (bounded-exhaustive: maximal dark runs, each once, in row order); EPS/PDF/TeX use incby=-1')
+def r1(fx):
+    it = Interp(max_steps=200_000_000)
+    f = make_callable(fx.forest, 'utils', 'matrix_to_lines', it)
+    fn = fx.fn('utils', 'matrix_to_lines')
+    bad = None
+    n = 0
+    for w in range(1, 7):
+        for bits in itertools.product((0, 1), repeat=w):
+            if not bits[0]:
+                continue        # module (0, 0) of every symbol is the dark corner of a finder pattern (C02.R5)
+            for (x, y, inc) in ((0, 0, 1), (2, 5, -1)):
+                n += 1
+                got = [tuple(map(tuple, r)) for r in f([list(bits)], x, y, inc)]
+                want = _runs([list(bits)], x, y, inc)
+                if got != want and bad is None:
+                    bad = ([bits], got, want)
+    for w in range(1, 5):
+        for b1 in itertools.product((0, 1), repeat=w):
+            for b2 in itertools.product((0, 1), repeat=w):
+                if not b1[0]:
+                    continue
+                for (x, y, inc) in ((1, 1.5, 1), (0, 0, -1)):
+                    n += 1
+                    got = [tuple(map(tuple, r)) for r in f([list(b1), list(b2)], x, y, inc)]
+                    want = _runs([list(b1), list(b2)], x, y, inc)
+                    if got != want and bad is None:
+                        bad = ([b1, b2], got, want)
+    for m in ([[1, 1, 0], [0, 1, 1], [1, 0, 1]], [[1, 0], [0, 0], [1, 1]], [[1], [1], [1], [0], [1]]):
+        n += 1
+        got = [tuple(map(tuple, r)) for r in f(m, 3, 4, 1)]
+        if got != _runs(m, 3, 4, 1) and bad is None:
+            bad = (m, got, _runs(m, 3, 4, 1))
+    yield ob(f'matrix_to_lines on {n} small matrices', bad is None, fn, got=f'{bad[0]}: {bad[1]}' if bad else 'maximal dark runs',
+             want=f'{bad[2]}' if bad else 'maximal dark runs')
+    want = {'write_svg': 'matrix_to_lines(matrix, x, y)', 'write_eps': 'matrix_to_lines(matrix, border, y, incby=-1)',
+            'write_pdf': 'matrix_to_lines(matrix, 0, 0, incby=-1)', 'write_tex': 'matrix_to_lines(matrix, x, y, incby=-1)'}
+    for w, p in want.items():
+        fnw = fx.fn('writers', w)
+        calls = [c for c in src.calls_in(fnw, 'matrix_to_lines')]
+        c = single(calls, f'matrix_to_lines call in {w}')
+        yield ob(f'{w}: draws matrix_to_lines(matrix, ...)', pat.match(c, p) is not None, c, got=ast.unparse(c), want=p)
+    svg = fx.fn('writers', 'write_svg')
+    a = single([s for s in src.statements(svg.body) if isinstance(s, ast.Assign) and ast.unparse(s.targets[0]) in ('(x, y)', 'x, y') and 'border' in ast.unparse(s.value)], 'SVG origin')
+    yield ob('SVG origin: (border, border + 0.5)', nf.norm(a.value) == nf.norm(ast.parse('(border, border + .5)', mode='eval').body), a, got=ast.unparse(a.value), want='border, border + .5')
+    tex = fx.fn('writers', 'write_tex')
+    a = single([s for s in src.statements(tex.body) if isinstance(s, ast.Assign) and ast.unparse(s.targets[0]) in ('(x, y)', 'x, y')], 'TeX origin')
+    yield ob('TeX origin: (border, -border)', nf.norm(a.value) == nf.norm(ast.parse('(border, -border)', mode='eval').body), a, got=ast.unparse(a.value), want='border, -border')
+
+
+@rule('C10', 'R2', 14, 'scale transform is emitted exactly when scale != 1 (SVG, EPS, PDF siblings)')
+def r2(fx):
+    scales = (0.25, 0.5, 0.99, 1, 1.0, 1.01, 2, 3.3, 10)
+    svg = fx.fn('writers', 'write_svg')
+    a = single([s for s in svg.body if isinstance(s, ast.Assign) and ast.unparse(s.targets[0]) == 'scale_info'], 'SVG scale_info')
+    for sc in scales:
+        got = ev.ev(a.value, {'scale': sc})
+        want = f' transform="scale({sc})"' if sc != 1 else ''
+        yield ob(f'SVG scale {sc}', got == want, a, got=got, want=want)
+    for w, patn in (('write_eps', "writeline(f'{scale} {scale} scale')"), ('write_pdf', "append_cmd(f'{scale} 0 0 {scale} 0 0 cm')")):
+        fn = fx.fn('writers', w)
+        sites = [s for s in src.statements(fn.body) if isinstance(s, ast.Expr) and pat.match(s.value, patn) is not None]
+        s = single(sites, f'scale transform of {w}')
+        g = nf.guards_of(s, fn)
+        need(len(g) >= 1, f'{w}: unguarded scale transform')
+        cond = g[-1][0]
+        bad = [sc for sc in scales if bool(ev.ev(cond, {'scale': sc})) != (sc != 1)]
+        yield ob(f'{w}: transform guard', not bad and len(g) == 1, s, got=f'if {ast.unparse(cond)} (differs from scale != 1 at {bad})', want='if scale != 1')
+    g = single([s for s in svg.body if isinstance(s, ast.Assign) and ast.unparse(s.targets[0]) == 'need_svg_group'], 'need_svg_group')
+    yield ob('SVG: the transform sits on the group when there is more than one path, else on the path', nf.norm(g.value) == nf.norm(ast.parse('scale != 1 and (need_background or is_multicolor)', mode='eval').body),
+             g, got=ast.unparse(g.value), want='scale != 1 and (need_background or is_multicolor)')
+    p = single([s for s in svg.body if isinstance(s, ast.Assign) and ast.unparse(s.targets[0]) == 'p'], 'SVG path prefix')
+    yield ob('SVG path carries the transform iff there is no group', "scale_info if not need_svg_group else ''" in ast.unparse(p.value), p,
+             got=ast.unparse(p.value)[:90], want="scale_info if not need_svg_group else ''")
+    grp = [ast.unparse(s) for s in src.statements(svg.body) if isinstance(s, ast.AugAssign) and '<g' in ast.unparse(s)]
+    yield ob('SVG group opens with the transform', grp == ["svg += f'<g{scale_info}>'"], svg, got=grp, want=["svg += f'<g{scale_info}>'"])
+
+
+TAINT = {'scale', 'width', 'height'}
+
+
+@rule('C10', 'R3', 4, 'no floor / int / round of a value derived from scale, width or height in the vector writers')
+def r3(fx):
+    for w in VEC:
+        fn = fx.fn('writers', w)
+        bad = []
+        for n in ast.walk(fn):
+            expr = None
+            if isinstance(n, ast.BinOp) and isinstance(n.op, ast.FloorDiv):
+                expr = n
+            elif isinstance(n, ast.Call) and src.call_name(n) in ('int', 'round', 'math.floor', 'math.ceil', 'floor', 'ceil', 'math.trunc') and n.args:
+                expr = n.args[0]
+            if expr is not None:
+                names = {x.id for x in ast.walk(expr) if isinstance(x, ast.Name)}
+                if names & TAINT:
+                    bad.append(f'{ast.unparse(n)} at line {n.lineno}')
+        yield ob(f'{w}: integer rounding of scale-derived values', not bad, fn, got=bad, want=[])
+
+
+@rule('C10', 'R4', 5, 'units: PDF background (page units) before the transform; SVG background sized in module units; EPS background fills the clip path')
+def r4(fx):
+    pdf = fx.fn('writers', 'write_pdf')
+    bg = single([s for s in pdf.body if isinstance(s, ast.If) and nf.norm(s.test) == 'light is not None'], 'PDF background block')
+    tr = single([s for s in pdf.body if isinstance(s, ast.If) and 'cm' in ast.unparse(s) and 'scale' in ast.unparse(s.test)], 'PDF transform block')
+    yield ob('PDF: background rectangle is emitted before the scale transform', pdf.body.index(bg) < pdf.body.index(tr), bg,
+             got=f'background at line {bg.lineno}, transform at line {tr.lineno}', want='background first')
+    rect = [ast.unparse(s.value.args[0]) for s in bg.body if isinstance(s, ast.Expr) and isinstance(s.value, ast.Call)]
+    yield ob('PDF: background = fill colour, 0 0 width height re, f', len(rect) == 3 and rect[1] == "f'0 0 {width} {height} re'" and rect[2] == "'f q'"
+             and 'rg' in rect[0] and 'to_pdf_color(light)' in rect[0], bg, got=rect, want="['... rg', '0 0 {width} {height} re', 'f q']")
+    svg = fx.fn('writers', 'write_svg')
+    b1 = single([s for s in src.statements(svg.body) if isinstance(s, ast.Assign) and 'coordinates[colormap[consts.TYPE_QUIET_ZONE]]' in ast.unparse(s.targets[0])], 'SVG background start')
+    names = {x.id for x in ast.walk(b1.value) if isinstance(x, ast.Name)}
+    yield ob('SVG: background path starts at (0, 0) with a horizontal length in module units', nf.norm(b1.value) == nf.norm(ast.parse('[(0, 0, matrix_size[0] + 2 * border)]', mode='eval').body),
+             b1, got=ast.unparse(b1.value), want='[(0, 0, matrix_size[0] + 2 * border)]')
+    rep = [n for n in ast.walk(svg) if isinstance(n, ast.JoinedStr) and 'z"/>' in ast.unparse(n)]
+    need(rep, 'SVG background closing path not found')
+    r = rep[0]
+    exprs = [ast.unparse(v.value) for v in r.values if isinstance(v, ast.FormattedValue)]
+    yield ob('SVG: background closes with v<rows+2b> h-<cols+2b> z (module units)', exprs == ['matrix_size[1] + 2 * border', 'matrix_size[0] + 2 * border'], r,
+             got=exprs, want=['matrix_size[1] + 2 * border', 'matrix_size[0] + 2 * border'])
+    eps = fx.fn('writers', 'write_eps')
+    f = [ast.unparse(c) for c in src.calls_in(eps, 'writeline') if 'clippath fill' in ast.unparse(c)]
+    yield ob('EPS: background = setrgbcolor clippath fill of the light colour, before the scale', len(f) == 1 and 'rgb_to_floats(light)' in f[0], eps, got=f,
+             want="writeline('{0:f} {1:f} {2:f} setrgbcolor clippath fill'.format(*rgb_to_floats(light)))")
+
+
+@rule('C10', 'R5', 4, 'origin: EPS and PDF share the first baseline rows + border - 1/2; TeX scales every coordinate')
+def r5(fx):
+    forms = {}
+    for w in ('write_eps', 'write_pdf'):
+        fn = fx.fn('writers', w)
+        a = single([s for s in fn.body + [x for st in fn.body if isinstance(st, ast.With) for x in st.body] if isinstance(s, ast.Assign) and ast.unparse(s.targets[0]) == 'y'
+                    and 'get_symbol_size' in ast.unparse(s.value)], f'baseline in {w}')
+        forms[w] = nf.norm(a.value)
+        yield ob(f'{w}: y = rows + border - 0.5', nf.norm(a.value) == nf.norm(ast.parse('get_symbol_size(matrix_size, scale=1, border=0)[1] + border - .5', mode='eval').body), a,
+                 got=ast.unparse(a.value), want='get_symbol_size(matrix_size, scale=1, border=0)[1] + border - .5')
+    pdf = fx.fn('writers', 'write_pdf')
+    c = [ast.unparse(s.value) for s in pdf.body if isinstance(s, ast.Expr) and "cm'" in ast.unparse(s) and 'border' in ast.unparse(s)]
+    yield ob('PDF: origin moved to (border, y)', c == ["append_cmd(f'1 0 0 1 {border} {y} cm')"], pdf, got=c, want=["append_cmd(f'1 0 0 1 {border} {y} cm')"])
+    tex = fx.fn('writers', 'write_tex')
+    pts = sorted(ast.unparse(c) for c in src.calls_in(tex, 'point'))
+    yield ob('TeX: every coordinate is multiplied by scale', pts == ['point(x1 * scale, y1 * scale)', 'point(x2 * scale, y2 * scale)'], tex, got=pts,
+             want=['point(x1 * scale, y1 * scale)', 'point(x2 * scale, y2 * scale)'])
+
+
+class Stream:
+    _model = ('write', 'tell')
+
+    def __init__(self):
+        self.buf = bytearray()
+
+    def write(self, b):
+        if not isinstance(b, (bytes, bytearray)):
+            raise Unknown('non-bytes written to a binary stream')
+        self.buf += b
+
+    def tell(self):
+        return len(self.buf)
+
+
+class CM:
+    def __init__(self, v):
+        self._cm_value = v
+
+
+@rule('C10', 'R6', 7, 'PDF structure: /Length, xref offsets, startxref, obj/endobj pairing, entry count and /Size')
+def r6(fx):
+    fn = fx.fn('writers', 'write_pdf')
+    it = Interp()
+    w = single([s for s in fn.body if isinstance(s, ast.With)], 'output block of write_pdf')
+    stream = Stream()
+    part = __import__('functools').partial
+    genv = callable_env(fx.forest, 'writers', it, {'writable': lambda out, mode, encoding=None: CM(stream), 'partial': part})
+    ws = FuncVal(fx.fn('writers', 'write_pdf.write_string'), genv, it)
+    blob = b'G' * 37
+    e = dict(genv, out='<out>', graphic=blob, width=58.5, height=58.5, creation_date="20260101000000+00'00'", write_string=ws)
+    it.block([w], e)
+    data = bytes(stream.buf)
+    yield ob('PDF header', data.startswith(b'%PDF-1.'), fn, got=data[:9], want=b'%PDF-1.x')
+    objs = [(m.start(), int(m.group(1))) for m in re.finditer(rb'(?<![0-9])(\d+) 0 obj', data)]
+    ends = len(re.findall(rb'endobj', data))
+    yield ob('every object is closed by endobj', ends == len(objs) and [n for _, n in objs] == list(range(1, len(objs) + 1)), fn,
+             got=f'{len(objs)} obj, {ends} endobj, numbers {[n for _, n in objs]}', want='n obj = n endobj, numbered 1..n')
+    m = re.search(rb'/Length (\d+)', data)
+    s0 = data.find(b'stream\r\n') + 8
+    s1 = data.find(b'\r\nendstream')
+    yield ob('/Length = length of the content stream', m is not None and int(m.group(1)) == 37 and data[s0:s1] == blob, fn,
+             got=(m.group(1) if m else None, s1 - s0), want=(b'37', 37))
+    xr = data.find(b'xref\r\n')
+    mm = re.search(rb'startxref\r\n(\d+)\r\n%%EOF', data)
+    yield ob('startxref = offset of the xref table', mm is not None and int(mm.group(1)) == xr and xr > 0, fn, got=(mm.group(1) if mm else None, xr), want='equal')
+    head = re.search(rb'xref\r\n0 (\d+)\r\n0000000000 65535 f\r\n', data)
+    entries = re.findall(rb'(\d{10}) (\d{5}) n\r\n', data[xr:])
+    yield ob('xref: one free entry + one in-use entry per object', head is not None and int(head.group(1)) == len(objs) + 1 and len(entries) == len(objs), fn,
+             got=(head.group(1) if head else None, len(entries), len(objs)), want='count = objects + 1')
+    offs_ok = len(entries) == len(objs) and all(int(off) == pos for (off, gen), (pos, num) in zip(entries, objs))
+    yield ob('every xref offset points at its `N 0 obj`', offs_ok, fn, got=[int(o) for o, g in entries], want=[p for p, n in objs])
+    tr = re.search(rb'trailer <</Size (\d+)/Root 1 0 R/Info (\d+) 0 R>>', data)
+    yield ob('trailer: /Size = objects + 1, /Info is the last object, MediaBox from width/height',
+             tr is not None and int(tr.group(1)) == len(objs) + 1 and int(tr.group(2)) == len(objs) and b'/MediaBox [0 0 58.5 58.5]' in data, fn,
+             got=(tr.groups() if tr else None), want=(len(objs) + 1, len(objs)))
+    g = single([s for s in fn.body if isinstance(s, ast.Assign) and ast.unparse(s.targets[0]) == 'graphic'], 'content stream')
+    fx.info['C10.R6 bytes interpreted'] = len(data)
+
+
+@rule('C10', 'R7', 8, 'page fields from the validated size; stroke from dark, fill from light')
+def r7(fx):
+    svg = fx.fn('writers', 'write_svg')
+    txt = [ast.unparse(s) for s in src.statements(svg.body) if isinstance(s, ast.AugAssign)]
+    yield ob('SVG width/height', 'svg += f\' width="{width}{unit}" height="{height}{unit}"\'' in txt, svg, got=[t for t in txt if 'width=' in t], want='width="{width}{unit}" height="{height}{unit}"')
+    yield ob('SVG viewBox', 'svg += f\' viewBox="0 0 {width} {height}"\'' in txt, svg, got=[t for t in txt if 'viewBox' in t], want='viewBox="0 0 {width} {height}"')
+    for w in VEC[:3]:
+        fn = fx.fn('writers', w)
+        a = [s for s in fn.body if isinstance(s, ast.Assign) and pat.match(s.value, '_valid_width_height_and_border(matrix_size, scale, border)') is not None
+             and ast.unparse(s.targets[0]) in ('(width, height, border)', 'width, height, border')]
+        yield ob(f'{w}: width, height, border = _valid_width_height_and_border(matrix_size, scale, border)', len(a) == 1, fn, got=len(a), want=1)
+    eps = fx.fn('writers', 'write_eps')
+    bb = [ast.unparse(c.args[0]) for c in src.calls_in(eps, 'writeline') if 'BoundingBox' in ast.unparse(c)]
+    yield ob('EPS BoundingBox', bb == ["f'%%BoundingBox: 0 0 {width} {height}'"], eps, got=bb, want=["f'%%BoundingBox: 0 0 {width} {height}'"])
+    st = {ast.unparse(s.targets[0]): ast.unparse(s.value) for s in eps.body if isinstance(s, ast.Assign)}
+    yield ob('EPS stroke colour from dark', st.get('stroke_color') == 'dark if stroke_color_is_black else rgb_to_floats(dark)' and st.get('stroke_color_is_black') == '_color_is_black(dark)', eps,
+             got=(st.get('stroke_color'), st.get('stroke_color_is_black')), want='rgb_to_floats(dark) unless black')
+    pdf = fx.fn('writers', 'write_pdf')
+    rg = [ast.unparse(s) for s in src.statements(pdf.body) if isinstance(s, ast.Expr) and isinstance(s.value, ast.Call) and 'RG' in ast.unparse(s)]
+    g = [s for s in pdf.body if isinstance(s, ast.If) and 'RG' in ast.unparse(s)]
+    yield ob('PDF stroke colour from dark', rg == ["append_cmd('{} {} {} RG'.format(*to_pdf_color(dark)))"] and len(g) == 1 and nf.norm(g[0].test) == 'not _color_is_black(dark)', pdf,
+             got=rg, want=["append_cmd('{} {} {} RG'.format(*to_pdf_color(dark)))"])
+    tex = fx.fn('writers', 'write_tex')
+    lw = [ast.unparse(c.args[0]) for c in src.calls_in(tex, 'write') if 'pgfsetlinewidth' in ast.unparse(c)]
+    yield ob('TeX line width = scale in the unit', lw == ["f'  \\\\pgfsetlinewidth{{{scale}{unit}}}\\n'"], tex, got=lw, want='\\pgfsetlinewidth{<scale><unit>}')
+
+
+@rule('C10', 'R8', 2, 'colour components map linearly: c -> c/255 for all 256 integer values, floats in [0, 1] unchanged')
+def r8(fx):
+    it = Interp(max_steps=5_000_000)
+    genv = callable_env(fx.forest, 'writers', it)
+    for q in ('write_eps.rgb_to_floats.to_float', 'write_pdf.to_pdf_color.to_float'):
+        f = FuncVal(fx.fn('writers', q), genv, it)
+        bad = [(c, f(c)) for c in range(256) if abs(f(c) - c / 255.0) > 1e-12]
+        fl = [(x, f(x)) for x in (0.0, 0.5, 1.0) if f(x) != x]
+        try:
+            f(1.5)
+            rng = 'accepted 1.5'
+        except PyRaise as e:
+            rng = e.name
+        yield ob(f'{q}', not bad and not fl and rng == 'ValueError', fx.fn('writers', q), got=f'{bad[:3]} {fl} float 1.5: {rng}', want='c/255; floats unchanged; 1.5 -> ValueError')
